@@ -20,6 +20,7 @@ EXPLANATION = (
     "container kind: length-mismatch ValueError, no attribute outside the ndarray API on sample arrays. "
     "C06.7: LASER field is sqrt(idbm(p)) times exp(j*real) factors, RIN the only non-unit factor; |df|>fs/2 raises ValueError. "
     "Not decided: numerical spectra, equality across containers beyond the shared code path.")
+EXPLANATION += (' Added after the audit wave: C06.6 a numpy scalar drive (inst numpy.integer) is computed like the python scalar, not refused.')
 TRUSTED = ["numpy elementwise arithmetic/broadcasting", "utils.idb/idbm as analysed in C19", "CPython ast"]
 
 REAL_SYMS = {"Vpi", "bias", "loss_dB", "ER_dB", "el_input", "el_input.signal", "p", "lw", "rin", "df", "t", "gv.dt", "gv.fs"}
@@ -191,6 +192,8 @@ def rule_pm(ctx):
     fi = pkg.func("devices.PM")
     kinds = {
         "scalar": ({"el_input": ("inst", "float", "int")}, {}, lambda: mk_fn("ones", [mk_fn("siglen", [S("op_input.signal")])]) * S("el_input")),
+        # a numpy scalar (np.int64(2), an element of an integer array) is a Number and a scalar drive like the python ones
+        "numpy scalar": ({"el_input": ("inst", "numpy.integer")}, {}, lambda: mk_fn("ones", [mk_fn("siglen", [S("op_input.signal")])]) * S("el_input")),
         "electrical_signal": ({}, {"el_input": "electrical_signal"}, lambda: S("el_input.signal")),
         "ndarray": ({"el_input": ("inst", "numpy.ndarray", "ndarray")}, {}, lambda: S("el_input")),
     }
@@ -201,7 +204,7 @@ def rule_pm(ctx):
             pc = {"op_input": "optical_signal"}
             pc.update(pc0)
             # a drive waveform is a one-dimensional array of samples ("drives of matching length"); a number has no axes
-            val = {"scalar": [(S("el_input.ndim"), 0)], "ndarray": [(S("el_input.ndim"), 1)], "electrical_signal": [(S("el_input.signal.ndim"), 1)]}[kind]
+            val = {"scalar": [(S("el_input.ndim"), 0)], "numpy scalar": [(S("el_input.ndim"), 0)], "ndarray": [(S("el_input.ndim"), 1)], "electrical_signal": [(S("el_input.signal.ndim"), 1)]}[kind]
             it = Interp(pkg, assumptions=ass, param_classes=pc, valuation=val)
             outs = it.run(fi)
             case = f"noise={noise} drive={kind}"
@@ -209,7 +212,11 @@ def rule_pm(ctx):
                 ctx.violation("C06.6", bfi, bn, src_of(bn), f"`{base!r}` is an ndarray: it has no attribute `{attr}` (AttributeError for a {kind} drive)")
             rets = [o for o in outs if o.kind == "return"]
             raises = [o for o in outs if o.kind == "raise"]
-            if kind != "scalar":
+            if kind == "numpy scalar" and not rets and raises:
+                ctx.violation("C06.6", fi, raises[-1].node, f"PM [{case}]", f"a numpy scalar drive (np.int64(2), np.float32(2), an element of an array: a Number, accepted by MZM) is rejected with {raises[-1].exc}: "
+                              "only python int/float are recognised as scalar drives, so the same voltage gives a result or an exception depending on how it was computed")
+                continue
+            if kind not in ("scalar", "numpy scalar"):
                 from ..rules import _concrete_run
                 la = mk_fn("siglen", [S("op_input.signal")])
                 lbs = [mk_fn("siglen", [S("el_input.signal")]), S("el_input.signal.size"), mk_fn("len", [S("el_input.signal")])] if kind == "electrical_signal" else [mk_fn("len", [S("el_input")]), S("el_input.size"), Form.atom(("idx", S("el_input.shape"), Form.num(0)))]
@@ -234,6 +241,8 @@ def rule_pm(ctx):
             if not isinstance(sig, Form):
                 ctx.unknown("C06.5", fi, node, f"PM [{case}] signal", "not a form")
                 continue
+            if kind in ("scalar", "numpy scalar") and sig != F * S("op_input.signal") and sig == mk_fn("exp", [Form.num(0, 1) * PI * S("el_input") / S("Vpi")]) * S("op_input.signal"):
+                F = mk_fn("exp", [Form.num(0, 1) * PI * S("el_input") / S("Vpi")])       # the scalar broadcast by the arithmetic itself
             ctx.check("C06.5", sig == F * S("op_input.signal"), fi, node, f"PM [{case}] output.signal / input.signal = {sig / S('op_input.signal')!r}",
                       "equals exp(j*pi*u/Vpi): unit modulus, exponent linear in the drive", f"phase factor differs from {F!r}")
             nz = out.fields.get("noise")
